@@ -151,6 +151,19 @@ PLAN = {
         quick=[rapid("prop", "TestProp", 3000), enum("routes", "TestEnum", shards=12)],
         thorough=[rapid("prop", "TestProp", 15000, shards=16), enum("routes", "TestEnum", shards=12)],
     ),
+    "C11": dict(
+        pkg="c11",
+        rule=("(A) container algebra: rapid-generated sequences of AddError(e|nil), AddErrorList(nil | empty | all-nil | mixed | clean) and Errors() on NewErrorContainer(), &ErrorContainer{} and a nil *ErrorContainer, compared after every step with a model list "
+              "(nil iff empty, element-wise identical, never a nil entry, nil container = no-op). (B) table histories: build operations interleaved with Row.AddError on pending and attached rows, Row.Add on separator and zero-value rows, registration of failing recording "
+              "callbacks on every owner (table, column incl. 0, row pending/attached, cell) x 4 times x 3 targets before or after the rows exist, and render passes (InvokeRenderCallbacks, csv, texttable); every raised error is unique. After every step: each pending row reports exactly "
+              "the errors raised on it, in order; the table reports every error raised on it or on rows that have joined it exactly once, no nil, per-source order preserved, misuse errors counted. "
+              "Non-trivial: (A) a zero-value or nil container receives a list with a nil entry; (B) an error on a pending row, a failing callback, or a cell added to a separator. Distinct: FNV-64 of the history."),
+        level_text="Model-based (stateful) property testing: the history is one shrinkable value, the model invariant runs after every step. Exploration level.",
+        level_note="The oracle is driven by the errors the harness' callbacks actually returned (not by a firing specification), so it holds for any callback schedule; errors not created by the harness are ignored except the documented misuse error. Caller-side aliasing of slices passed in or handed out is not asserted.",
+        technique="model-based stateful property testing (rapid) with an invariant after every step",
+        quick=[rapid("containers", "TestPropA", 10000), rapid("tables", "TestPropB", 5000)],
+        thorough=[rapid("containers", "TestPropA", 60000, shards=8), rapid("tables", "TestPropB", 30000, shards=16)],
+    ),
     "C18": dict(
         pkg="c18",
         rule=("strings built from a width-hostile token alphabet (newlines leading/trailing/repeated, CJK wide, full-width, combining, zero-width, emoji ZWJ/flag/skin-tone sequences, "
